@@ -144,6 +144,34 @@ Definition wf_lat (ct : ctable) : bool :=
              forallb (fun d => forallb (fun e => mem_cid e (c_mro (snd p))) (c_mro (cls_of ct d))) (c_mro (snd p))
              && forallb (plain_up ct) (c_promote (snd p))) (classes ct).
 
+(* ---------------------------------------------------------------- fragment F2
+   F1 extended with generic instances: None, Never, literals of non-generic classes, instances C[args] of
+   non-protocol classes other than bool/enums with the declared number of arguments, every argument again in F2
+   (unbounded nesting), and flat non-empty unions of such atoms. *)
+Definition gcls_ok (ct : ctable) (c : cid) : bool :=
+  negb (contractible ct c) && negb (c_protocol (cls_of ct c)).
+Fixpoint frag2 (ct : ctable) (t : ty) : bool :=
+  match t with
+  | TNever => true
+  | TNone => true
+  | TLit c _ => gcls_ok ct c && Nat.eqb (arity ct c) 0
+  | TInst c args => gcls_ok ct c && Nat.eqb (length args) (arity ct c) && forallb (frag2 ct) args
+  | TUnion ts =>
+      match ts with
+      | [] => false
+      | _ => forallb (fun x => negb (is_union x) && negb (is_never x) && frag2 ct x) ts
+      end
+  | _ => false
+  end.
+Definition atom2 (ct : ctable) (t : ty) : bool := negb (is_union t) && negb (is_never t) && frag2 ct t.
+
+(* closed argument types of generic bases are in F2 *)
+Definition wf_ac (ct : ctable) : bool :=
+  forallb (fun p : cid * cls =>
+             forallb (fun e : cid * list aspec =>
+                        forallb (fun s => match s with AC t => frag2 ct t | AP _ => true end) (snd e))
+                     (c_amap (snd p))) (classes ct).
+
 (* promotion chains starting at c (through any ancestor) have length <= n; gives a sufficient fuel *)
 Fixpoint chain_ok (ct : ctable) (n : nat) (c : cid) : bool :=
   forallb (fun b => forallb (fun p => match n with O => false | S n' => chain_ok ct n' p end)
@@ -151,7 +179,7 @@ Fixpoint chain_ok (ct : ctable) (n : nat) (c : cid) : bool :=
 Definition chains_ok (ct : ctable) (n : nat) : bool := forallb (chain_ok ct n) (cids_of ct).
 
 Definition wf_ct (ct : ctable) : bool :=
-  wf_lat ct &&
+  wf_ac ct && wf_lat ct &&
   mem_cid (k_object ct) (cids_of ct)
   && Nat.eqb (length (c_mro (cls_of ct (k_object ct)))) 1
   && Nat.eqb (arity ct (k_object ct)) 0
